@@ -53,6 +53,8 @@ impl Writer {
     }
 
     pub(super) fn write(&self, data: &[u8]) -> std::io::Result<()> {
+        #[cfg(walrus_verif)]
+        crate::wal::verif::point("w.start");
         // Check if batch write is in progress
         if self.is_batch_writing.load(Ordering::Acquire) {
             return Err(std::io::Error::new(
@@ -61,6 +63,8 @@ impl Writer {
             ));
         }
 
+        #[cfg(walrus_verif)]
+        crate::wal::verif::point("w.before_lock");
         let mut block = self.current_block.lock().map_err(|_| {
             std::io::Error::new(std::io::ErrorKind::Other, "current_block lock poisoned")
         })?;
@@ -216,6 +220,8 @@ impl Writer {
             total_bytes
         );
 
+        #[cfg(walrus_verif)]
+        crate::wal::verif::point("bw.before_lock");
         // Phase 1: Pre-allocation & Planning
         let mut block = self.current_block.lock().map_err(|_| {
             std::io::Error::new(std::io::ErrorKind::Other, "current_block lock poisoned")
